@@ -6,6 +6,24 @@ from vlib import Check, Stream, hexs
 NODE = re.compile(r"[()]|[^\s()]+")
 
 
+class NullVal:
+    """a stored NULL data pointer with a non-zero size (put(tbl, key, NULL, n)): no block, copies are NULL"""
+    def __init__(self, n): self.n = n
+    def __bool__(self): return False
+    def __eq__(self, o): return isinstance(o, NullVal) and o.n == self.n
+    def __hash__(self): return hash(("N", self.n))
+    def __repr__(self): return "NULL/%d" % self.n
+
+
+def unval(w):
+    return NullVal(int(w[1:])) if w.startswith("N") else unhex(w)
+
+
+def kv(t):
+    k, v = t.split("=")
+    return (unhex(k), unval(v))
+
+
 def unhex(w):
     return b"" if w == "-" else bytes.fromhex(w)
 
@@ -29,7 +47,7 @@ def parse_shape(s):
         assert toks[pos[0]] == ")"
         pos[0] += 1
         k, v = kv.split("=")
-        return (l, unhex(k), unhex(v), col == "r", int(tid), nxt, r)
+        return (l, unhex(k), unval(v), col == "r", int(tid), nxt, r)
     return node()
 
 
@@ -154,10 +172,10 @@ class TreeOracle:
             if "copies" in a and int(m.group(2)) != 0:
                 return "%s returned copies changed after later mutations / release of the container" % m.group(2)
             return None
-        if armed and kind in ("put", "get", "min", "max", "next", "near", "new"):
+        if armed and kind in ("put", "putnull", "get", "min", "max", "next", "near", "new"):
             # an allocation may have failed inside this call (C15): the call must either complete
             # correctly or report failure and leave the contents alone
-            failed = (kind == "put" and f[0] == "false") or (kind == "get" and f[0] == "null") or \
+            failed = (kind in ("put", "putnull") and f[0] == "false") or (kind == "get" and f[0] == "null") or \
                      (kind in ("min", "max", "near") and f[0] == "ENOMEM") or (kind == "next" and f[0] == "enomem") or \
                      (kind == "new" and f[0] == "null")
             if kind == "new":
@@ -172,8 +190,9 @@ class TreeOracle:
                 return err
         if kind == "new":
             self.reset(int(w[1]))
-        elif kind == "put":
-            k, v = unhex(w[1]), unhex(w[2])
+        elif kind in ("put", "putnull"):
+            k = unhex(w[1])
+            v = unhex(w[2]) if kind == "put" else (NullVal(int(w[2])) if int(w[2]) else b"")
             i = ident(I.mode, k)
             if i in I.d:
                 if v:
@@ -218,7 +237,7 @@ class TreeOracle:
             if "map" in a and got != want:
                 err = "find_%s returned %r, expected %r" % (kind, got, want)
         elif kind == "walk":
-            items = [tuple(unhex(x) for x in t.split("=")) for t in f[2:f.index("|")]]
+            items = [kv(t) for t in f[2:f.index("|")]]
             if "walk" in a and items != I.sorted_items():
                 err = "walk returned %d items %r, the table holds %r" % (len(items), items[:6], I.sorted_items()[:6])
             self.walk = None; self.unfinished = False
@@ -228,7 +247,7 @@ class TreeOracle:
             self.walk = ("fresh", list(I.sorted_items()))
         elif kind == "near":
             want = I.floor(unhex(w[1]))
-            got = tuple(unhex(x) for x in f[1].split("=")) if f[0] == "found" else None
+            got = kv(f[1]) if f[0] == "found" else None
             if "nearest" in a and got != (tuple(want) if want else None):
                 err = "nearest(%r) returned %r, expected %r" % (unhex(w[1]), got, want)
             if self.walk:
@@ -243,7 +262,7 @@ class TreeOracle:
             else:
                 mode, remaining = self.walk
                 if f[0] == "item":
-                    it = tuple(unhex(x) for x in f[1].split("="))
+                    it = kv(f[1])
                     if mode == "fresh":
                         if "walk" in a and (not remaining or remaining[0] != it):
                             err = "getnext returned %r, expected %r" % (it, remaining[0] if remaining else "end of walk")
@@ -374,6 +393,33 @@ class TreeCheck(Check):
         return Stream("%s-%dkeys" % (name, nkeys), all_ops, history=True,
                       note="%d distinct tree shapes reached; every put/remove edge from each" % nstates)
 
+    @staticmethod
+    def nulldata_ops(faults=False):
+        """entries stored with a NULL data pointer and a non-zero size (accepted by put, kept as is):
+        every accessor on them, replacement in both directions, optionally under allocation faults"""
+        ks = [b"a", b"b", b"c", b"d", b"e"]
+        ops = ["new 0"]
+        for i, k in enumerate(ks):
+            ops.append("putnull %s %d" % (hexs(k), (1, 8, 32)[i % 3]) if i % 2 == 0 else "put %s 76" % hexs(k))
+        probes = ks + [b"\0", b"bb", b"z"]
+        arms = ["fault 1", "fault 2", "faultfrom 1"] if faults else [None]
+        for arm in arms:
+            for k in probes:
+                for o in ("get", "near"):
+                    ops += ([arm] if arm else []) + ["%s %s" % (o, hexs(k))]
+            ops += ["near %s" % hexs(b"a")] + ["next"] * 7 + ["cursor0"] + ["next"] * 6 + ["walk", "min", "max", "size", "dump"]
+        ops += ["put %s 7777" % hexs(b"a"), "putnull %s 8" % hexs(b"b"), "putnull %s 4" % hexs(b"a"), "putnull %s 0" % hexs(b"c"),
+                "putnull %s 16" % hexs(b"f"), "dump"]
+        for k in probes + [b"f"]:
+            ops += ["get %s" % hexs(k), "near %s" % hexs(k), "next", "next"]
+        ops += ["rm %s" % hexs(b"a"), "rm %s" % hexs(b"f"), "walk", "clear", "putnull %s 3" % hexs(b"q"), "near %s" % hexs(b"q"), "next", "next"]
+        return ops
+
+    def corpus_streams(self):
+        sts = super().corpus_streams()
+        sts.append(Stream("null-data-values", self.nulldata_ops(), history=True))
+        return sts
+
     def random_history(self, n, nkeys, mode=0, ops=("put", "put", "rm", "get", "size", "min", "max"), quiet=True, keygen=None):
         rng = self.rng
         if keygen is None:
@@ -386,6 +432,9 @@ class TreeCheck(Check):
             o = rng.choice(ops)
             k = rng.choice(pool)
             if o == "put":
+                if rng.random() < 0.06:
+                    out.append("putnull %s %d" % (hexs(k), rng.choice([1, 8, 32])))   # NULL data with a size
+                    continue
                 v = bytes(rng.randrange(256) for _ in range(rng.choice([0, 1, 1, 3, 40])))
                 out.append("put %s %s" % (hexs(k), hexs(v)))
             elif o in ("rm", "get", "near"):
